@@ -113,6 +113,12 @@ func ruleLexLess(r *core.Run, p *core.Prog, typ string) {
 			if !ok2 || fr != fc {
 				okShape, detail = false, fmt.Sprintf("step %d tests field %s but orders by %s", i, fc, fr)
 			}
+			// the test and the ordering must look at the same key: operands of `differs` == operands of `less`
+			cx, cy := cmpOperands(s.Cond)
+			rx, ry := cmpOperands(ret.Results[0])
+			if cx == "" || rx == "" || cx != rx || cy != ry {
+				okShape, detail = false, fmt.Sprintf("step %d decides 'differs' on (%s, %s) but orders by (%s, %s): values that differ under the first but tie under the second are neither less nor greater, and the remaining fields are never consulted", i, cx, cy, rx, ry)
+			}
 			order = append(order, fc)
 		case *ast.ReturnStmt:
 			fr, ok := single(s)
@@ -674,4 +680,21 @@ func c13BinGuards(r *core.Run, p *core.Prog) {
 	if n == 0 {
 		r.Undecided(rule, target.Name+":user-bin-size", p.Rel(target.Decl.Pos()), "no assignment of a parsed duration to TimeBinSize found")
 	}
+}
+
+// cmpOperands returns the rendered operands (X, Y) of a comparison: X op Y, X.M(Y), !X.M(Y).
+func cmpOperands(e ast.Expr) (string, string) {
+	e = ast.Unparen(e)
+	if u, ok := e.(*ast.UnaryExpr); ok && u.Op == token.NOT {
+		e = ast.Unparen(u.X)
+	}
+	switch x := e.(type) {
+	case *ast.BinaryExpr:
+		return core.Str(x.X), core.Str(x.Y)
+	case *ast.CallExpr:
+		if sel, ok := x.Fun.(*ast.SelectorExpr); ok && len(x.Args) == 1 {
+			return core.Str(sel.X), core.Str(x.Args[0])
+		}
+	}
+	return "", ""
 }
